@@ -333,6 +333,7 @@ impl World {
                 }
             }
             O::DebugChain => self.debug_chain(a[0].max(1) as u32),
+            O::CmpChain => self.cmp_chain(a[0], a[1], a[2]),
             O::Compare => {
                 if let (Some(i), Some(j)) = (self.resolve_root(a[0], any), self.resolve_root(a[1], any)) {
                     self.compare(i, j);
